@@ -117,7 +117,12 @@ func readReplay(path string) (string, string, error) {
 	return p, r, nil
 }
 
+var debugHook func(w *World, what string) bool
+
 func doDump(w *World, what string) {
+	if debugHook != nil && debugHook(w, what) {
+		return
+	}
 	f := w.Facts()
 	switch {
 	case what == "facts":
@@ -160,5 +165,19 @@ func doDump(w *World, what string) {
 			return
 		}
 		fn.WriteTo(os.Stdout)
+	}
+}
+
+func init() {
+	debugHook = func(w *World, what string) bool {
+		if !strings.HasPrefix(what, "method:") {
+			return false
+		}
+		parts := strings.Split(strings.TrimPrefix(what, "method:"), ".")
+		fn := w.method(parts[0], parts[1], parts[2])
+		if fn != nil {
+			fn.WriteTo(os.Stdout)
+		}
+		return true
 	}
 }
